@@ -319,6 +319,21 @@ def run(tier):
     rep.floor("std parsers used by the resolver", len(rparsers), 1)
 
     emitter_layout(rep, F)
+    # (b') integer spelling: the emitter writes an Integer with Display; the inverse of <i64 as Display> is str::parse::<i64> on the whole,
+    # unmodified text (sign included - the magnitude of i64::MIN alone does not fit), and the resolver must reach it before the float parser
+    pi = [bb for bb, t, ck, fr in pfc.calls() if ck == "str::parse" and "i64" in fr["substs"]
+          and not tables.find_calls(tables.normalize(cfg.expr_operand(pfc, t["args"][0], 12)), "::strip_prefix")
+          and cfg.strip_reborrow(tables.normalize(cfg.expr_operand(pfc, t["args"][0], 12)))[0] in ("ref", "place", "call", "param")]
+    whole = []
+    for bb, t, ck, fr in pfc.calls():
+        if bb in pi:
+            e = cfg.expr_str(tables.normalize(cfg.expr_operand(pfc, t["args"][0], 12)))
+            if "arg1" in e and "strip" not in e and "trim" not in e and "[" not in e:
+                whole.append(bb)
+    pff = [bb for bb, t, ck, fr in pfc.calls() if ck == "saphyr::loader::parse_f64"]
+    rep.check(len(whole) >= 1 and all(any(w in pfc.dominators().get(x, ()) for w in whole) for x in pff), "integer-spelling", "parse_from_cow",
+              "the resolver no longer applies str::parse::<i64> to the whole plain text before trying a float: some integer the emitter writes with Display "
+              "(i64::MIN, whose magnitude alone does not fit) reloads as a float", site=pfc.span)
     # (c) float spelling
     en = F.fn(EM + "YamlEmitter::emit_node")
     sc = F.adt(C08.SC)
